@@ -520,9 +520,12 @@ def b_rearr(c):
         else:
             f = lambda v: v.reshape(tuple(tp), order=st)
     elif prim == "ravel":
-        f = (lambda v: np.ravel(v, order=st)) if form == "func" else (lambda v: v.ravel(order=st))
+        if st == "Fpos":
+            f = lambda v: v.ravel("F")
+        else:
+            f = (lambda v: np.ravel(v, order=st)) if form == "func" else (lambda v: v.ravel(order=st))
     elif prim == "flatten":
-        f = lambda v: v.flatten()
+        f = (lambda v: v.flatten()) if st == "-" else ((lambda v: v.flatten(order="F")) if st == "F" else (lambda v: v.flatten("F")))
     elif prim == "repeat" and form == "method":
         f = (lambda v: v.repeat(ia, ax)) if c["id"] % 2 else (lambda v: v.repeat(ia, axis=ax))
     elif prim == "repeat":
